@@ -108,6 +108,7 @@ def run_threaded(case):
         for _ in range(case["queries"]):
             read(st)
 
+    init_worker()          # (idempotent; the shrinker evaluates in forks of the parent)
     det, errors = twothread.run_two(case["sched"], writer, reader)
     info["switches"] = det.n_switch
     info["schedule"] = [det.ydigest, det.step, [list(d) for d in det.decisions]]
